@@ -213,8 +213,24 @@ static void check(ByteSource& in, CaseInfo& ci) {
   switch (in.pick({6, 3, 7, 3, 3, 3, 3})) { case 0: case_get_str(in, ci); break; case 1: case_mpn_get_str(in, ci); break; case 2: case_set_str(in, ci); break; case 3: case_inp_str(in, ci); break;
     case 4: case_roundtrip(in, ci); break; case 5: case_mpn_set_str(in, ci); break; default: case_mpq(in, ci); break; }
 }
+// ---- exhaustive sweep: every signed value of up to three limbs with limbs from {0,1,2^63-1,2^63,2^64-2,2^64-1} in every base 2..62 ----
+static uint64_t sweep_count() { return 432ull * 61ull; }
+static void sweep_item(uint64_t i, CaseInfo& ci) {
+  uint64_t iv = i % 432; int base = 2 + (int)(i / 432); Int V = palette_int(iv % 216, 3); if (iv >= 216) V = -V; ci.d("v=%s base=%d", show(V).c_str(), base);
+  Z z; mpz_from_int(z.z, V); std::string e = ref::to_string(V, base, false); size_t nd = e.size() - (V.neg ? 1 : 0); bool p2 = (base & (base - 1)) == 0;
+  size_t sib = mpz_sizeinbase(z.z, base); REQUIRE(sib == nd || (!p2 && sib == nd + 1), "mpz_sizeinbase(%s, %d) = %zu, the value has %zu digits", show(V).c_str(), base, sib, nd);
+  char* buf = (char*)malloc(sib + 2); memset(buf, 0x55, sib + 2); mpz_get_str(buf, base, z.z); std::string got(buf, strnlen(buf, sib + 2)); free(buf);
+  REQUIRE(got == e, "mpz_get_str(%s, base %d) = \"%s\", expected \"%s\"", show(V).c_str(), base, got.c_str(), e.c_str());
+  if (base <= 36) { std::string eu = ref::to_string(V, base, true); char* r = mpz_get_str(nullptr, -base, z.z); std::string g2 = r; void (*fr)(void*, size_t); mp_get_memory_functions(nullptr, nullptr, &fr); fr(r, g2.size() + 1); REQUIRE(g2 == eu, "mpz_get_str(%s, base %d) = \"%s\", expected \"%s\"", show(V).c_str(), -base, g2.c_str(), eu.c_str()); }
+  Z y; int rc = mpz_set_str(y.z, e.c_str(), base); REQUIRE(rc == 0, "mpz_set_str(\"%s\", %d) returned %d", e.c_str(), base, rc); REQUIRE_WF(y.z, "mpz_set_str"); REQUIRE(int_from_mpz(y.z) == V, "mpz_set_str(\"%s\", %d): wrong value", e.c_str(), base);
+  if (!V.neg && !V.is_zero()) { std::vector<uint64_t> cp(V.m.begin(), V.m.end()); cp.push_back(0); std::vector<unsigned char> out(max_digits(V.m.size(), (unsigned)base) + 2, 0x55); size_t n = mpn_get_str(out.data(), base, cp.data(), V.m.size());
+    std::vector<unsigned> d = digits_of(V, base); size_t lead = n - d.size(); REQUIRE(n >= d.size() && n <= out.size() - 1, "mpn_get_str(%s, %d): returned %zu digits", show(V).c_str(), base, n); bool ok = true; for (size_t k = 0; k < lead; k++) if (out[k]) ok = false; for (size_t k = 0; k < d.size(); k++) if (out[lead + k] != d[k]) ok = false;
+    REQUIRE(ok, "mpn_get_str(%s, %d): wrong digit values", show(V).c_str(), base);
+    std::vector<unsigned char> dg(d.begin(), d.end()); std::vector<uint64_t> lim(V.m.size() + 2, 0x77); size_t rn = mpn_set_str(lim.data(), dg.data(), dg.size(), base); REQUIRE(rn == V.m.size() && Int::from_limbs(lim.data(), rn) == V, "mpn_set_str of the digits of %s in base %d: wrong value or limb count %zu", show(V).c_str(), base, rn); }
+}
 namespace eng {
 PropDef g_prop = {"C06",
   "Cases: mpz_get_str (exact sizeinbase+2 buffer or NULL), mpz_out_str via open_memstream, mpz_sizeinbase; mpn_get_str (bases 2..256, exact 'largest possible + 1' buffer); mpz_set_str / mpz_init_set_str on must-accept strings from a grammar (optional white space, sign, base-0 prefixes 0x 0X 0b 0B 0, mixed case for bases <= 36, maximal digits, leading zeros, embedded and trailing white space) and must-reject strings (an impossible character or a digit >= base inserted at any position, empty / blank / lone sign); mpz_inp_str via fmemopen with leading white space and a terminator; get_str -> set_str / inp_str round trip; mpn_set_str (raw digits, exact room when the top digit is non-zero); mpq_set_str / mpq_get_str. Bases 2..62, -2..-36, 0. Values by limb count around GET_STR thresholds, digit counts around SET_STR thresholds, base^k, base^k+-1, big_base^k+-1. Oracle: refint radix conversion; manual's alphabets and return codes; strings whose status the manual leaves open (white space after a sign, lone prefix, leading '+') are not generated. Non-trivial: >= 2 limbs or >= 20 characters. Distinct = hash of all decoded choices.",
-  check, nullptr, {"negative_base", "get_str:dc", "get_str:precompute", "set_str:dc", "set_str:precompute", "base0", "invalid_char", "invalid_char_at_end", "invalid_char_at_start", "invalid_char:high_bit_byte", "invalid_char_after_leading_zeros", "embedded_whitespace", "leading_zeros", "inp_str:no_digits", "sizeinbase_one_too_big"}};
+  check, nullptr, {"negative_base", "get_str:dc", "get_str:precompute", "set_str:dc", "set_str:precompute", "base0", "invalid_char", "invalid_char_at_end", "invalid_char_at_start", "invalid_char:high_bit_byte", "invalid_char_after_leading_zeros", "embedded_whitespace", "leading_zeros", "inp_str:no_digits", "sizeinbase_one_too_big"}, nullptr, sweep_count, sweep_item,
+  "every signed value of up to three limbs with limbs from {0,1,2^63-1,2^63,2^64-2,2^64-1} in every base 2..62: mpz_sizeinbase, mpz_get_str (and upper case for bases <= 36), mpz_set_str of the digits, mpn_get_str and mpn_set_str on the magnitude"};
 }
